@@ -3,7 +3,8 @@
 (i) test-level (run_contract on hand-assembled contracts): setUp builds state (constant and
     symbolic storage values with assumptions, mapping entries, dealt balances, a warped
     timestamp); 3-5 tests each check that state under pinned arguments and then mutate it
-    (storage, mappings, transient storage, balances, timestamp).  Every test is run alone, and in
+    (storage, mappings, transient storage, balances, timestamp, code of another account, an
+    unterminated prank observed through an echo contract).  Every test is run alone, and in
     the same process after the others in two orders, repeated ([f, g, f]), and with halmos' uid()
     rebound to ascending / descending suffix generators; the normalised result of a test (exit
     code, number of counterexamples, path counts, bounded loops, counterexample names and values
@@ -77,8 +78,24 @@ def assume_lt(dst, bound):
     return [["memw", 0x700, head.hex()], ["mstore", 0x704, ["op2", "LT", ["mload", dst], ["c", bound]]], ["xcall", refevm.HEVM, 0x700, 36, 0, 0]]
 
 
+ECHO_SLOT = 0x20
+ECHO_RUNTIME = [["mstore", 0, ["env", "CALLER"]], ["return", 0, 32]]
+
+
+def echo_creation():
+    from vfw import asm, gen
+
+    return asm.creation_code(gen.compile_body(ECHO_RUNTIME), b"")
+
+
+def etch_call(addr, n):
+    code = bytes([0x5B] * n)  # n JUMPDESTs
+    data = cheats.sel("etch(address,bytes)").to_bytes(4, "big") + addr.to_bytes(32, "big") + (0x40).to_bytes(32, "big") + n.to_bytes(32, "big") + code + bytes((-n) % 32)
+    return [["memw", 0x700, data.hex()], ["xcall", refevm.HEVM, 0x700, len(data), 0, 0]]
+
+
 def setup_stmts(ops):
-    out = []
+    out = [["create", "CREATE", ["c", 0], echo_creation().hex(), ["c", 0], 0x3E0], ["sstore", ["c", ECHO_SLOT], ["mload", 0x3E0]]]
     for n, op in enumerate(ops):
         k = op[0]
         if k == "sstore":
@@ -108,7 +125,15 @@ def loc_expr(loc):
         return ["bal", ["c", ADDRS[loc[1]]]]
     if k == "ts":
         return ["env", "TIMESTAMP"]
+    if k == "codesize":
+        return ["extsize", ["c", ADDRS[loc[1]]]]
+    if k == "echo":  # the msg.sender that a callee of this test sees (computed by echo_pre)
+        return ["mload", 0x6C0]
     raise ValueError(loc)
+
+
+def echo_pre():
+    return [["call", "CALL", ["sload", ["c", ECHO_SLOT]], ["c", 0], 0x6A0, 0, 0x6C0, 32, 0x6E0]]
 
 
 def mut_stmts(m):
@@ -124,6 +149,10 @@ def mut_stmts(m):
         return vm_call("deal(address,uint256)", ADDRS[m[1]], m[-1] if not isinstance(m[-1], str) else 3)
     if k == "ts":
         return vm_call("warp(uint256)", m[-1] if not isinstance(m[-1], str) else 3)
+    if k == "codesize":
+        return etch_call(ADDRS[m[1]], (m[-1] if not isinstance(m[-1], str) else 3) + 1)
+    if k == "echo":  # a prank that is still active when the test ends
+        return vm_call("startPrank(address)", ADDRS[0] if m[-1] in (0, "arg") else ADDRS[1])
     raise ValueError(m)
 
 
@@ -136,6 +165,8 @@ def test_body(t):
     if t["nargs"] == 2:
         cond = ["op2", "AND", cond, ["op2", "EQ", e2e.arg(1), ["c", t["pin"][1]]]]
     ck = t["check"]
+    if ck["loc"][0] == "echo":
+        body += echo_pre()
     scond = {"eq": ["op2", "EQ", loc_expr(ck["loc"]), ["c", ck["c"]]], "ne": ["op1", "ISZERO", ["op2", "EQ", loc_expr(ck["loc"]), ["c", ck["c"]]]], "lt": ["op2", "LT", loc_expr(ck["loc"]), ["c", ck["c"]]]}[ck["cmp"]]
     body.append(["if", cond, [["if", scond, e2e.fail_stmts(t["fail"]), []]], []])
     for m in t["post"]:
@@ -248,7 +279,7 @@ def run_tests_case(case, acc=None):
     if acc is not None:
         # non-trivial: some test mutates (post) a location that a later test of order1 checks
         def lk(loc):
-            return tuple(loc[:3]) if loc[0] == "map" else tuple(loc[:2]) if loc[0] != "ts" else ("ts",)
+            return tuple(loc[:3]) if loc[0] == "map" else tuple(loc[:2]) if loc[0] not in ("ts", "echo") else (loc[0],)
 
         nt = False
         idx = {s: i for i, s in enumerate(sigs)}
@@ -421,6 +452,8 @@ def loc_st():
         st.builds(lambda s: ["tslot", s], st.sampled_from([0, 1])),
         st.builds(lambda a: ["bal", a], st.sampled_from([0, 1])),
         st.just(["ts"]),
+        st.builds(lambda a: ["codesize", a], st.sampled_from([0, 1])),
+        st.just(["echo"]),
     )
 
 
